@@ -281,6 +281,10 @@ def run(ctx):
         if alg.d <= 4:
             lines.append(f'srcsigns {tok}')
             plan.append(('translated:signs', desc, ','.join(map(str, real['signs']))))
+        if alg.d <= 3:
+            lines.append(f'srctables {tok}')
+            plan.append(('translated:tables', desc, ','.join(map(str, real['signs'])) + '|' + ','.join(real['cayley']) + '|' +
+                         ';'.join(f'{g}:' + ','.join(map(str, ks)) for g, ks in alg.indices_for_grade.items())))
         if alg.d <= 5:
             bs = ','.join(alg.basis) if alg.basis else '-'
             st_in = desc.get('start') if desc.get('start') is not None else (0 if list(alg.signature).count(0) == 1 else 1)
